@@ -128,6 +128,10 @@ type Enc struct {
 	groupTail      []*Oblig
 	atVars         map[string]SV
 	mapRanges      map[*ssa.Range]int
+	inlineStack    []*ssa.Function
+	inlineRets     [][]inlineRet
+	inlineDebug    []map[string][]ssa.Value
+	inlineHome     *ssa.BasicBlock // block of the outermost call being inlined: writes and locals are attributed to it
 	atSelect       *ssa.Select // the select statement whose at-clauses are being applied (selhas / selhassend)
 	gaddrs         []Term
 	privCells      []privCell
@@ -325,13 +329,17 @@ func (e *Enc) hset(s *State, name, sort string, t Term) {
 }
 
 func (e *Enc) noteWrite(name string) {
-	if e.curBlock == nil {
+	blk := e.curBlock
+	if e.inlineHome != nil {
+		blk = e.inlineHome
+	}
+	if blk == nil {
 		return
 	}
-	m := e.writes[e.curBlock.Index]
+	m := e.writes[blk.Index]
 	if m == nil {
 		m = map[string]bool{}
-		e.writes[e.curBlock.Index] = m
+		e.writes[blk.Index] = m
 	}
 	m[name] = true
 }
